@@ -67,6 +67,32 @@ def c08_1(ctx, r):
                 r.bad(key_of(fn, "raw results file access"), s.loc, f"{fn.short} opens/removes a results file directly, bypassing ResultsAggregator's lock")
 
 
+@rule(P, "C08.1b", "T7", "a locked function runs on the instance whose lock is held (no call on another aggregator without its lock)", min_obligations=5)
+def c08_1b(ctx, r):
+    cl = ctx.cls(RA, "C08.1b")
+    targets = [f for f in cl.methods.values() if ("RESULT_WRITE" in ctx.direct_effects(f) or f.name in ("_move_results", "_get_results", "_process_results")) and f.name.startswith("_") and f.name != "__init__"]
+    for f in targets:
+        for s in ctx.callers_of(f):
+            if s.how == "callback":
+                r.ok(f"{f.short}: invoked as a callback bound to the instance that passed it", at=s.loc)
+                continue
+            me = s.fn.params[0] if s.fn.params and s.fn.kind in ("method", "property") else None
+            if s.via_wrapper and f.qual in s.wrapped:
+                w = s.node.func
+                arg = next((a for a in s.node.args if isinstance(a, ast.Attribute) and a.attr == f.name), None)
+                ok = isinstance(w, ast.Attribute) and isinstance(w.value, ast.Name) and w.value.id == me and arg is not None and isinstance(arg.value, ast.Name) and arg.value.id == me
+                r.check(ok, f"{s.fn.short}: self._do_action_under_lock(self.{f.name}, ...) - lock and function of the same instance", key_of(s.fn, f"wrapper/instance mismatch for {f.name}"), s.loc,
+                        f"{f.name} is run under the lock of one aggregator on the file of another")
+            elif f.qual in s.callees:
+                recv = s.node.func.value if isinstance(s.node.func, ast.Attribute) else None
+                ok = isinstance(recv, ast.Name) and recv.id == me
+                if f.name in ("_get_results",) and s.fn.short in (f"{RA}.get_results_unsafe",):
+                    ok = True
+                r.check(ok, f"{s.fn.short}: {f.name}() on self (whose lock the caller holds)", key_of(s.fn, f"{f.name} on another instance without its lock"), s.loc,
+                        f"{s.fn.short} calls `{ctx.src(s.node.func)}()` directly on another aggregator: that file is read / written / deleted without holding its own lock "
+                        "(an append racing with this call is lost)", "No row is lost, duplicated, truncated")
+
+
 @rule(P, "C08.2", "L0", "the results lock wrapper acquires before calling and releases on every exit", min_obligations=3)
 def c08_2(ctx, r):
     from .c10 import _check_wrapper
@@ -216,7 +242,7 @@ def c08_6(ctx, r):
     inner = [n for n in iter_own(pr.node) if isinstance(n, ast.Assign) and isinstance(n.value, ast.Call) and "load_node_results_file" in ctx.src(n.value)]
     r.check(bool(inner), "the inner hold is a node file's (load_node_results_file(path))", key_of(pr, "inner is node"), pr.loc(), "the inner aggregator is not built from a node results file")
     if not nests:
-        raise AnalysisError("C08.6", "no nested acquisition found (collection no longer takes the node lock?)")
+        r.bad(key_of(pr, "collection without node lock"), pr.loc(), "_process_results no longer acquires the node file's lock while moving its rows: an append racing with read-append-delete is lost", "No row is lost")
 
 
 @rule(P, "C08.7", "T2", "every completion path collects before reading the final results", min_obligations=2)
